@@ -130,7 +130,13 @@ func (w *writer) Message() MessageWriter {
 
 // Free frees the writer and releases its internal resources.
 func (w *writer) Free() {
+	// Read the release flags before close. Close puts an autoreleased writer back into the pool,
+	// the writer belongs to its next owner then and must not be read anymore.
+	auto := w.writerState == nil || w.releaseState || w.releaseWriter
 	w.close()
+	if auto {
+		return // released by close, or already released (after an error or a previous Free)
+	}
 
 	if w.writerState == nil {
 		return // already released (after an error or a previous Free)
